@@ -11,6 +11,8 @@ use either::Either;
 impl AbstractInstructionSet {
     /// Removes any jumps to the subsequent line.
     pub(crate) fn remove_sequential_jumps(mut self) -> AbstractInstructionSet {
+        #[cfg(fuellabs_sway_verif)]
+        crate::verif_hooks::asm_pass("enter", "remove_sequential_jumps", &self.function, &self.ops);
         let dead_jumps: Vec<_> = self
             .ops
             .windows(2)
@@ -37,10 +39,14 @@ impl AbstractInstructionSet {
             };
         }
 
+        #[cfg(fuellabs_sway_verif)]
+        crate::verif_hooks::asm_pass("exit", "remove_sequential_jumps", &self.function, &self.ops);
         self
     }
 
     pub(crate) fn remove_redundant_moves(mut self) -> AbstractInstructionSet {
+        #[cfg(fuellabs_sway_verif)]
+        crate::verif_hooks::asm_pass("enter", "remove_redundant_moves", &self.function, &self.ops);
         // This has a lot of room for improvement.
         //
         // For now it is just removing MOVEs to registers which are _never_ used.  It doesn't
@@ -91,6 +97,8 @@ impl AbstractInstructionSet {
             }
         }
 
+        #[cfg(fuellabs_sway_verif)]
+        crate::verif_hooks::asm_pass("exit", "remove_redundant_moves", &self.function, &self.ops);
         self
     }
 
@@ -98,6 +106,8 @@ impl AbstractInstructionSet {
         mut self,
         mut log: impl FnMut(&str),
     ) -> AbstractInstructionSet {
+        #[cfg(fuellabs_sway_verif)]
+        crate::verif_hooks::asm_pass("enter", "remove_redundant_ops", &self.function, &self.ops);
         let mut new_ops = Vec::with_capacity(self.ops.len());
 
         let mut ops = self.ops.iter().peekable();
@@ -133,6 +143,8 @@ impl AbstractInstructionSet {
         }
 
         self.ops = new_ops;
+        #[cfg(fuellabs_sway_verif)]
+        crate::verif_hooks::asm_pass("exit", "remove_redundant_ops", &self.function, &self.ops);
         self
     }
 }
